@@ -449,11 +449,15 @@ impl<'a> Parser<'a> {
                     this.tokens[token_idx].kind = TokenKind::IdentFunction;
                 }
                 this.bump();
+            } else {
+                this.expect(TokenKind::Ident);
             }
 
             // Parameters
             if this.check(TokenKind::ParenBegin) {
                 this.parse_param_list();
+            } else {
+                this.expect(TokenKind::ParenBegin);
             }
 
             // Optional return type annotation after '->'
@@ -465,6 +469,8 @@ impl<'a> Parser<'a> {
             // Body
             if this.check(TokenKind::BlockBegin) {
                 this.parse_block_expr();
+            } else {
+                this.expect(TokenKind::BlockBegin);
             }
         });
     }
@@ -555,11 +561,15 @@ impl<'a> Parser<'a> {
                     this.tokens[token_idx].kind = TokenKind::IdentFunction;
                 }
                 this.bump();
+            } else {
+                this.expect(TokenKind::Ident);
             }
 
             // Parameters
             if this.check(TokenKind::ParenBegin) {
                 this.parse_param_list();
+            } else {
+                this.expect(TokenKind::ParenBegin);
             }
 
             // Optional return type annotation after '->'
@@ -571,6 +581,8 @@ impl<'a> Parser<'a> {
             // Body
             if this.check(TokenKind::BlockBegin) {
                 this.parse_block_expr();
+            } else {
+                this.expect(TokenKind::BlockBegin);
             }
         });
     }
